@@ -13,7 +13,7 @@ from pbt.core import Result, silence, exc_sig
 ID = "C15"
 LEVEL = "exploration"
 EXAMPLES = {"quick": 320, "thorough": 9000}
-DEADLINE_S = {"quick": 420, "thorough": 3000}
+DEADLINE_S = {"quick": 600, "thorough": 3000}
 # Hypothesis needs minutes to shrink a network recipe + case list (each attempt re-draws the grid); the quick tier
 # reports the smallest failing case found instead (hand-reduced witnesses are in replays/)
 NO_SHRINK = {"quick": True, "thorough": False}
